@@ -229,6 +229,11 @@ func content(file, kind string, k int) []byte {
 	}
 	switch kind {
 	case "half":
+		if file == "cert" {
+			// half of the leaf's PEM block: half of the bundle would be a complete leaf plus a torn
+			// intermediate, which is a valid certificate file (section 6)
+			return p.leaf[:len(p.leaf)/2]
+		}
 		return b[:len(b)/2]
 	case "empty":
 		return nil
